@@ -137,6 +137,8 @@ class ReadCanon:
                         it["conv_src"] = c[1]
                     elif tgt in INT_TYPES:
                         cur_ty = tgt
+                    elif tgt.endswith("::DateTime"):
+                        kind, target = "datetime", tgt  # x.try_into() is DateTime::try_from(x)
                 elif c[0] == "from_int":
                     a = self.adt(c[1])
                     if a is not None and a["kind"] == "Enum":
